@@ -11,5 +11,7 @@ CONSTANTS
   FixPinned = TRUE
   FixKeep = TRUE
   FixDangling = TRUE
+  FixABA = TRUE
+  DriftOn = FALSE
 INVARIANTS Exclusive NeverUnassignHeld NeverDeleteInUse HeldBacked QuotaAddr NoGhostOwner TrackedEqualsCloud
 CHECK_DEADLOCK FALSE
